@@ -278,6 +278,13 @@ func (a *Activation) opaqueCall(fv Val, args []Val, sig *types.Signature, st *St
 func (a *Activation) opaqueCallX(fv Val, args []Val, sig *types.Signature, st *State, pos token.Pos, what string, havoc bool) (*State, []Val) {
 	t := a.t
 	f := fv.S
+	if t.modelNames == nil {
+		t.modelNames = map[string]string{}
+	}
+	if _, ok := t.modelNames[f]; !ok && t.quantDepth == 0 {
+		t.modelNames[f] = "called at " + posStr(t.eng.fset, pos) + " " + what
+		t.modelSyms = append(t.modelSyms, f)
+	}
 	// calling a nil function value panics
 	a.obligeSafety(st, "nilcall", "call of function value", sNot(sEq(f, "0")), pos)
 	calls := t.callsArr(st)
@@ -535,6 +542,20 @@ func (t *Task) funcTypeFact(pc, term string, T types.Type) {
 }
 
 func (a *Activation) invoke(recv Val, m *types.Func, args []Val, sig *types.Signature, st *State, pos token.Pos) (*State, []Val) {
+	out, res := a.invoke0(recv, m, args, sig, st, pos)
+	if out != nil && !out.dead {
+		if con := a.rootContract(); con != nil {
+			for _, c := range con.Clauses {
+				if c.Kind == "oncall" && c.Name == m.Name() {
+					a.ghostAssign(out, c)
+				}
+			}
+		}
+	}
+	return out, res
+}
+
+func (a *Activation) invoke0(recv Val, m *types.Func, args []Val, sig *types.Signature, st *State, pos token.Pos) (*State, []Val) {
 	t := a.t
 	a.obligeSafety(st, "nil", "method call on nil interface", sNot(sEq(recv.S, "0")), pos)
 	// 1. statically known dynamic type
@@ -1003,7 +1024,36 @@ func (a *Activation) loopHead(li *loopInfo, b *ssa.BasicBlock, st *State) *State
 		v := env2.evalBool(c.Expr, c.Src)
 		t.assume(nst.pc, v)
 	}
+	// implicit invariant: the call counters change only where the contract's modifies clauses allow
+	if anyCalls {
+		if f := a.callsFrame(nst, "r!q"); f != "" {
+			t.assume(nst.pc, "(forall ((|r!q| Int)) (! "+f+" :pattern ((select "+t.lookup(nst, "$calls")+" |r!q|))))")
+		}
+	}
 	return nst
+}
+
+// callsFrame: "calls[r] is unchanged since entry unless r is a calls(...) target of the root contract".
+func (a *Activation) callsFrame(st *State, r string) string {
+	t := a.t
+	ra := a.rootAct()
+	if ra == nil || ra.con == nil {
+		return ""
+	}
+	env := ra.exprEnv(st, nil)
+	env.old = ra.entry
+	saved := t.quantDepth
+	t.quantDepth++ // no side facts while evaluating targets
+	targets, _, _ := t.resolveMods(env, ra.con)
+	t.quantDepth = saved
+	var prem []string
+	for _, m := range targets {
+		if m.callsOf != "" {
+			prem = append(prem, sNot(sEq(smtName(r), m.callsOf)))
+		}
+	}
+	rr := smtName(r)
+	return sImp(sAnd(prem...), sEq(sApp("select", t.callsArr(st), rr), sApp("select", t.callsArr(ra.entry), rr)))
 }
 
 func labelOr(l string, i int) string {
@@ -1055,12 +1105,20 @@ func (a *Activation) loopBack(li *loopInfo, from, header *ssa.BasicBlock, pc str
 	env := a.exprEnv(hst, nil)
 	for i, c := range invs {
 		v := env.evalBool(c.Expr, c.Src)
-		name := fmt.Sprintf("%s#loop%d.preserved[%s]", fname, li.ord, labelOr(c.Label, i))
+		name := fmt.Sprintf("%s#loop%d.preserved@b%d[%s]", fname, li.ord, from.Index, labelOr(c.Label, i))
 		t.oblige("loopinv", name, c.Label, pc, v, c.Src, c.Expr)
+	}
+	if _, ok := t.arrSort["$calls"]; ok {
+		rc := t.fresh("frame:rc", "Int")
+		rname := strings.Trim(rc, "|")
+		if f := a.callsFrame(hst, rname); f != "" && f != tTrue {
+			name := fmt.Sprintf("%s#loop%d.preserved@b%d[frame.calls]", fname, li.ord, from.Index)
+			t.oblige("loopinv", name, "", pc, f, "", "call counters change only at the modifies targets")
+		}
 	}
 	for i, c := range decs {
 		after := env.evalInt(c.Expr, c.Src)
-		name := fmt.Sprintf("%s#loop%d.decreases[%s]", fname, li.ord, labelOr(c.Label, i))
+		name := fmt.Sprintf("%s#loop%d.decreases@b%d[%s]", fname, li.ord, from.Index, labelOr(c.Label, i))
 		t.oblige("decreases", name, c.Label, pc, sAnd("(< "+after+" "+before[i]+")", "(>= "+before[i]+" 0)"), c.Src, c.Expr)
 	}
 }
@@ -1401,6 +1459,12 @@ func (a *Activation) ghostAssign(st *State, c Clause) {
 	for _, as := range strings.Split(c.Expr, ";") {
 		as = strings.TrimSpace(as)
 		if as == "" {
+			continue
+		}
+		if strings.HasPrefix(as, "assume ") {
+			v := env.evalBool(strings.TrimSpace(as[7:]), c.Src)
+			a.t.assume(st.pc, v)
+			a.t.assumed["assumption attached to a call ("+c.Src+"): "+strings.TrimSpace(as[7:])] = true
 			continue
 		}
 		k := strings.Index(as, ":=")
